@@ -161,6 +161,9 @@ func loadGrammars() []*featGrammar {
 	}
 	var names []string
 	for _, e := range entries {
+		if only := os.Getenv("C17_ONLY"); only != "" && !strings.Contains(e.Name(), only) { // development aid
+			continue
+		}
 		names = append(names, e.Name())
 	}
 	sort.Strings(names)
